@@ -940,7 +940,10 @@ def applyMeta (h : Hdr) (kind cand rest : Str) : PyM Hdr :=
     else if rest == untypedName then .error .valueError
     else .ok { h with typ := some rest, allowed := allowedNames cand rest }
   else if kind == kwUnit then
-    if h.unit.isSome then .error .valueError else .ok { h with unit := some rest }
+    -- `if unit is not None: raise`; the variant `if unit:` (`unitDupByNone = false`) does not see an EMPTY unit
+    match h.unit with
+    | none => .ok { h with unit := some rest }
+    | some u => if unitDupByNone || !u.isEmpty then .error .valueError else .ok { h with unit := some rest }
   else .error .valueError
 
 /-- the `#`-line branch -/
